@@ -5,7 +5,7 @@
 From Grex Require Import Base.Str Model.Config Model.Cluster Model.Dfa Model.Expr Model.Pipeline.
 From Grex Require Import Proofs.Lang Proofs.Spec Proofs.RepInv Proofs.Construction
   Proofs.PropsGlue.
-From Grex Require Proofs.MergeLang.
+From Grex Require Proofs.MergeLang Proofs.NoMerge.
 
 (* on one cluster: same language, and expanding the repetitions gives the cluster back *)
 Theorem C05_clusters : forall (lit cls : cp -> cp -> Prop) c cl,
@@ -98,6 +98,53 @@ Qed.
 Print Assumptions C05_clusters.
 Print Assumptions C05_spec_indep.
 Print Assumptions C05_notation.
+(* WHERE THE EXACTNESS THEOREM APPLIES WITH REPETITION CONVERSION ON (Proofs/NoMerge.v): two
+   sufficient conditions for no_merge, the hypothesis of the construction theorem, that can be read
+   off the input. *)
+
+(* (1) one test case (or several equal ones): the trie is a single path, nothing is widened *)
+Theorem C05_no_merge_single : forall c db ws,
+  (length (normalise c db ws) <= 1)%nat ->
+  no_merge (grapheme_clusters c db (normalise c db ws)) = true.
+Proof. exact NoMerge.no_merge_pipeline_le1. Qed.
+
+Theorem C05_normalise_single : forall c db w n,
+  length (normalise c db (repeat w (S n))) = 1%nat.
+Proof. exact NoMerge.normalise_repeat. Qed.
+
+(* ... hence for ONE test case, every configuration, every thresholds, every self-check outcome:
+   the expression built WITH repetition conversion has exactly the specification language *)
+Theorem C05_single_test_case_exact : forall (lit cls : cp -> cp -> Prop) c db sc ws e,
+  ws <> [] ->
+  oracle_ok db (normalise c db ws) ->
+  (length (normalise c db ws) <= 1)%nat ->
+  Pipeline.final_expr c (grapheme_clusters c db (normalise c db ws)) sc = Some e ->
+  (forall u, (u <> [] \/ K4 (normalise c db ws) = false) ->
+     (L_expr lit cls e u <-> Spec lit cls c db ws u))
+  /\ (L_expr lit cls e [] -> Spec lit cls c db ws []).
+Proof. exact NoMerge.construction_lang_single. Qed.
+
+(* (2) the widening branch (known finding K1) needs two graphemes with the same characters whose
+   upper counts differ by exactly one somewhere in the converted test cases *)
+Theorem C05_no_merge_adjacent_free : forall cls,
+  NoMerge.adjacent_free cls = true -> no_merge cls = true.
+Proof. exact NoMerge.no_merge_adjacent_free. Qed.
+
+Theorem C05_exact_without_adjacent_counts : forall (lit cls : cp -> cp -> Prop) c db sc ws e,
+  ws <> [] ->
+  oracle_ok db (normalise c db ws) ->
+  NoMerge.adjacent_free (grapheme_clusters c db (normalise c db ws)) = true ->
+  Pipeline.final_expr c (grapheme_clusters c db (normalise c db ws)) sc = Some e ->
+  (forall u, (u <> [] \/ K4 (normalise c db ws) = false) ->
+     (L_expr lit cls e u <-> Spec lit cls c db ws u))
+  /\ (L_expr lit cls e [] -> Spec lit cls c db ws []).
+Proof. exact NoMerge.construction_lang_adjacent_free. Qed.
+
+Print Assumptions C05_no_merge_single.
+Print Assumptions C05_normalise_single.
+Print Assumptions C05_single_test_case_exact.
+Print Assumptions C05_no_merge_adjacent_free.
+Print Assumptions C05_exact_without_adjacent_counts.
 Print Assumptions C05_no_merge_without_rep.
 Print Assumptions C05_K1_witness.
 Print Assumptions C05_never_loses.
